@@ -23,6 +23,15 @@ def case(kind, *args):
     return L('case', kind, *args)
 
 
+def XB(b):
+    """bytes argument of a case: one atom, or a list of atoms of at most 256 bytes (Base/Sx.v reverses every atom with the
+    quadratic List.rev: a 100 KB atom would take the extracted runner a quarter of an hour to read)"""
+    b = bytes(b)
+    if len(b) <= 256:
+        return xb(b)
+    return L(*[xb(b[i:i + 256]) for i in range(0, len(b), 256)])
+
+
 # ------------------------------------------------------------------------------------------
 # a tiny PDF builder (valid files to mutate)
 # ------------------------------------------------------------------------------------------
@@ -249,13 +258,13 @@ def gen_pred(rng):
     data = bytes(rng.choice([0, 1, 2, 3, 4, 5, 9, 255, rng.randrange(256)]) for _ in range(rng.choice([0, 1, 3, 4, 5, 12, 64, 700])))
     ext = [1, 1, 2, 3, 4, 8, 16] + I64
     p = rng.choice([10, 11, 12, 13, 14, 15, 15, 12, 12, 1, 2, 9, 16, 0, -1, I64MAX])
-    return case('pred', str(p), str(rng.choice(ext)), str(rng.choice(ext)), str(rng.choice([8, 8, 8, 16, 1, 0, 7] + I64)), xb(data))
+    return case('pred', str(p), str(rng.choice(ext)), str(rng.choice(ext)), str(rng.choice([8, 8, 8, 16, 1, 0, 7] + I64)), XB(data))
 
 
 def gen_frame(rng):
     data = bytes(rng.choice([0, 1, 2, 3, 4, 5, 255, rng.randrange(256)]) for _ in range(rng.choice([0, 1, 2, 5, 9, 64, 500])))
     ext = [0, 1, 1, 2, 3, 4, 8, len(data), max(0, len(data) - 1), len(data) + 1] + [e for e in EXTREMES if 0 <= e < 2**64]
-    return case('frame', str(rng.choice(ext)), str(rng.choice(ext)), xb(data))
+    return case('frame', str(rng.choice(ext)), str(rng.choice(ext)), XB(data))
 
 
 OPS = [b'q', b'Q', b'BT', b'ET', b'Tj', b'TJ', b"'", b'"', b'cm', b're', b'f*', b'Do', b'Tf', b'BI', b'ID', b'EI', b'n']
@@ -331,7 +340,7 @@ def gen_objstm(rng):
         ents.append(('First', I(first) if rng.random() < 0.95 else N('x')))
     if rng.random() < 0.1:
         content = mutate(rng, content)[1]
-    return case('objstm', D(ents), xb(content))
+    return case('objstm', D(ents), XB(content))
 
 
 def gen_xrefstm(rng):
@@ -351,7 +360,7 @@ def gen_xrefstm(rng):
         if rng.random() < 0.1:
             idx = idx[:-1]
         ents.append(('Index', A([I(i) for i in idx])))
-    return case('xrefstm', D(ents), xb(content))
+    return case('xrefstm', D(ents), XB(content))
 
 
 def gen_textstr(rng):
@@ -395,7 +404,7 @@ def gen_cmap(rng):
             text += c15.code_bytes(ln, code)
         else:
             text += bytes(rng.randrange(256) for _ in range(rng.randint(1, 5)))
-    return kind, case('cmap', xb(stream), xb(text))
+    return kind, case('cmap', XB(stream), XB(text))
 
 
 def gen_stream(rng):
@@ -424,39 +433,39 @@ def gen_cases(rng, tier):
     def add(line, kind, nontrivial=True):
         cases.append((line, {'kind': kind, 'nontrivial': nontrivial}))
     for _ in range(160 if q else 6000):
-        k, b = gen_a85(rng); add(case('a85', xb(b)), 'a85-' + k, len(b) > 0)
+        k, b = gen_a85(rng); add(case('a85', XB(b)), 'a85-' + k, len(b) > 0)
     for _ in range(140 if q else 5000):
         add(gen_pred(rng), 'pred')
     for _ in range(80 if q else 3000):
         add(gen_frame(rng), 'frame')
     for _ in range(260 if q else 9000):
-        k, b = gen_content(rng); add(case('content', xb(b)), 'content-' + k, len(b) > 0)
+        k, b = gen_content(rng); add(case('content', XB(b)), 'content-' + k, len(b) > 0)
     for _ in range(140 if q else 5000):
         add(gen_objstm(rng), 'objstm')
     for _ in range(200 if q else 7000):
         add(gen_xrefstm(rng), 'xrefstm')
     for _ in range(120 if q else 4000):
-        b = gen_textstr(rng); add(case('textstr', xb(b)), 'textstr', len(b) > 0)
+        b = gen_textstr(rng); add(case('textstr', XB(b)), 'textstr', len(b) > 0)
     for _ in range(140 if q else 5000):
         k, line = gen_cmap(rng); add(line, 'cmap-' + k)
     for _ in range(80 if q else 3000):
         add(gen_stream(rng), 'stream')
     seeds = seed_files()
     for name, b in seeds:
-        add(case('load', xb(b)), 'load-valid-' + name)
-        add(case('incload', xb(b)), 'incload-valid-' + name)
+        add(case('load', XB(b)), 'load-valid-' + name)
+        add(case('incload', XB(b)), 'incload-valid-' + name)
     for _ in range(420 if q else 15000):
         name, b = rng.choice(seeds)
         k, m = mutate(rng, b)
         if rng.random() < 0.25:
             k2, m = mutate(rng, m); k = k + '+' + k2
-        add(case(rng.choice(['load', 'load', 'load', 'incload']), xb(m)), 'load-' + k)
+        add(case(rng.choice(['load', 'load', 'load', 'incload']), XB(m)), 'load-' + k)
     # adversarial whole files
     n = 300 if q else 20000
     chain = [(i, b'<</Length %d 0 R>>stream\nx\nendstream' % (i + 1)) for i in range(1, n + 1)] + [(n + 1, b'1')]
-    add(case('load', xb(pdf_classic(chain))), 'load-length-chain')
-    add(case('load', xb(pdf_classic([(1, b'<</Type/Catalog/X ' + b'[' * 50000 + b'>>')]))), 'load-deep-array')
-    add(case('load', xb(pdf_classic(simple_objs(), prev=0))), 'load-prev-0')
+    add(case('load', XB(pdf_classic(chain))), 'load-length-chain')
+    add(case('load', XB(pdf_classic([(1, b'<</Type/Catalog/X ' + b'[' * 50000 + b'>>')]))), 'load-deep-array')
+    add(case('load', XB(pdf_classic(simple_objs(), prev=0))), 'load-prev-0')
     return cases
 
 
